@@ -221,10 +221,22 @@ class OptInterp(ObjInterp):
             cur = thaw(st).get(cand)
             if cur is None:
                 return [st]
+            init = tu.node(tu.sd(n).get('init')) if tu.sd(n).get('init') else None
+            init = tu.strip(init) if init is not None else None
+            if init is not None and init.get('kind') in ('CXXConstructExpr', 'CXXTemporaryObjectExpr') \
+                    and 'noexcept' not in tu.sd(init).get('fty', ''):
+                # the payload constructor may throw: the function is left with the state *before* the construction
+                self.report('exc-state', 'the payload constructor throws', n, fr, st)
             if cur[0] == 'L' and not self.triv.get(cand):
                 self.report('construct-over-live', 'placement-new into the storage of `%s` while it still holds a live '
                             'payload (the old payload is never destroyed)' % cand, n, fr, st)
             return [self.set_obj(st, cand, storage='L')]
+        if k == 'CXXOperatorCallExpr' and tu.sd(n).get('q', '').endswith('::operator=') and tu.sd(n).get('rec') != OPT:
+            sd_, objx_, args_ = tu.call_parts(n)
+            if objx_ is not None and self.payload_of(objx_, st, fr) is not None and 'noexcept' not in sd_.get('fty', ''):
+                # assignment into the payload may throw: the function is left in the current state
+                self.report('exc-state', 'the payload assignment throws', n, fr, st)
+            return None
         if k in ('CXXMemberCallExpr', 'CallExpr'):
             ks = tu.kids(n)
             callee = tu.strip(ks[0]) if ks else None
@@ -310,6 +322,7 @@ def check_optional(ctx, tu):
             if any(is_opt_type(p['ct'])[0] for p in f['params']):
                 entries.append((f, R2))
     n1 = n2 = 0
+    n_exc = [0]
     for f, rule in entries:
         env = {}
         objs = {}
@@ -358,10 +371,31 @@ def check_optional(ctx, tu):
                 ctx.ok(rule, label, 'accessor: requires an engaged Optional (caller-side precondition); call sites are checked instead',
                        tu.fn_loc(f), nontrivial=False)
                 continue
+            delegating = any(e[0] == 'I' and e[3] == '<base>' for b in tu.cfg(f).blocks.values() for e in b.el)
             for kind, detail, nid, chain, fst, infn in found:
-                bad = True
                 path = list(chain) + ['at %s: %s' % (tu.loc(nid), tu.show(tu.node(nid)))] if nid else list(chain)
                 inner = tu.functions.get(infn, f)
+                if kind == 'exc-state':
+                    # state in which the operation is abandoned when a payload constructor / assignment throws
+                    n_exc[0] += 1
+                    for o, v in sorted(thaw(fst).items()):
+                        if '@' in o:
+                            continue
+                        if o == 'this' and f.get('ctor') and not delegating:
+                            okv = (v[0] == 'E') or triv.get(o)      # object never comes to life: nothing may stay constructed
+                        else:
+                            okv = v in ('EF', 'LT')
+                        if okv:
+                            continue
+                        bad = True
+                        what = {'ET': 'flagged engaged although no payload was constructed (the next reset/assignment/destructor runs '
+                                      'the payload destructor on dead storage)',
+                                'LF': 'holding a constructed payload that is flagged empty (it is never destroyed)'}.get(v, 'in state ' + v)
+                        ctx.violation(rule, label, 'if %s here, `%s` is left %s (entry state %s)' % (detail, o, what, dict(d0)),
+                                      tu.loc(nid), key='%s|%s|%s|throw-leaves-%s-%s' % (rule, tu.fn_file(inner), pattern_name(tu, inner), o, v),
+                                      path=path)
+                    continue
+                bad = True
                 ctx.violation(rule, label, '%s (entry state %s)' % (detail, dict(d0)), tu.loc(nid) if nid else tu.fn_loc(f),
                               key='%s|%s|%s|%s' % (rule, tu.fn_file(inner), pattern_name(tu, inner), kind), path=path)
             for s2, rv in outs:
@@ -387,6 +421,8 @@ def check_optional(ctx, tu):
             if not bad:
                 ctx.ok(rule, label, 'exits: %s' % sorted({tuple(sorted(thaw(s2).items())) for s2, _ in outs}), tu.fn_loc(f))
     ctx.floor(R1, n1, 150, 'members x payload types x entry states measured on the pinned tree: 264')
+    ctx.floor(R1 + ' (exceptional exits)', n_exc[0], 20, 'potentially throwing payload constructions/assignments reached: 60+ on the pinned tree')
+    ctx.extra['c09_exceptional_exit_states_checked'] = ctx.extra.get('c09_exceptional_exit_states_checked', 0) + n_exc[0]
     ctx.floor(R2, n2, 24, '6 comparison operators x operand states: 36 on the pinned tree')
 
 
@@ -429,6 +465,7 @@ class AnyInterp(ObjInterp):
     def __init__(self, tu, holder):
         super().__init__(tu)
         self.holder = holder
+        self.nullable_calls = {}
 
     def is_own_fn(self, f):
         return f.get('rec') == ANY
@@ -604,6 +641,12 @@ class AnyInterp(ObjInterp):
         if k == 'CXXMemberCallExpr':
             sd, obj, args = tu.call_parts(n)
             name = sd.get('q', '').split('::')[-1]
+            if sd.get('virt') and sd.get('rec', '').startswith(ANY + '::'):
+                # a call of a holder virtual: remember which pointer arguments may be null here
+                for idx, a in enumerate(args):
+                    y = self.ptr_obj(a, fr)
+                    if y is not None and thaw(st).get(y) != 'V':
+                        self.nullable_calls.setdefault((sd.get('q'), idx), (n, fr.fn, y))
             if obj is not None:
                 o = self.holder_obj(obj, fr)
                 if o is not None and name in ('reset', 'release'):
@@ -722,6 +765,139 @@ def check_any(ctx, tu):
                               key='%s|%s|Any::handle::clone|no-new' % (R4, tu.fn_file(f)))
     ctx.floor(R4, n4, 3, 'copy constructor + clone() of the instantiated holders')
     check_any_get(ctx, tu, R5)
+    check_any_nullable_args(ctx, tu, it)
+
+
+class PtrInterp(ObjInterp):
+    """raw pointer parameters / locals of the holder classes: 'N' (null) / 'V' (non-null)"""
+
+    def is_own_fn(self, f):
+        return f.get('rec', '').startswith(ANY)
+
+    def looks_own(self, sd):
+        return sd.get('rec', '').startswith(ANY)
+
+    def is_null(self, e):
+        e = self.tu.strip(e, casts=True)
+        return e is not None and (e.get('kind') in ('CXXNullPtrLiteralExpr', 'GNUNullExpr') or
+                                  (e.get('kind') == 'IntegerLiteral' and e.get('value') == '0'))
+
+    def eval_bool(self, e, st, fr, depth=0):
+        tu = self.tu
+        e = tu.strip(e, casts=True)
+        if e is None or depth > 10:
+            return None
+        k = e.get('kind')
+        if k == 'UnaryOperator' and e.get('opcode') == '!':
+            v = self.eval_bool(tu.kids(e)[0], st, fr, depth + 1)
+            return None if v is None else (not v)
+        if k == 'BinaryOperator' and e.get('opcode') in ('==', '!='):
+            a, b = tu.kids(e)
+            for x, y in ((a, b), (b, a)):
+                o = self.obj_of(x, fr)
+                if o is not None and self.is_null(y):
+                    v = thaw(st).get(o)
+                    if v in ('N', 'V'):
+                        return (v == 'N') if e['opcode'] == '==' else (v == 'V')
+            return None
+        o = self.obj_of(e, fr)
+        if o is not None:
+            v = thaw(st).get(o)
+            return True if v == 'V' else False if v == 'N' else None
+        return None
+
+    def aval(self, e, st, fr):
+        return self.eval_bool(e, st, fr)
+
+    def on_node(self, n, st, fr):
+        tu = self.tu
+        k = n.get('kind')
+        if k == 'DeclStmt':
+            outs = [st]
+            for v in tu.kids(n):
+                if v.get('kind') != 'VarDecl' or not v.get('type', {}).get('qualType', '').rstrip().endswith('*'):
+                    continue
+                ks = tu.kids(v)
+                init = tu.strip(ks[-1]) if ks else None
+                name = '%s@%s' % (v.get('name', 'local'), fr.fn['q'].split('::')[-1])
+                fr.env[v['id']] = name
+                src = None
+                dyn = False
+                x = init
+                while x is not None and x.get('kind') in ('CXXDynamicCastExpr', 'CXXStaticCastExpr', 'CStyleCastExpr',
+                                                           'CXXReinterpretCastExpr', 'ImplicitCastExpr', 'ParenExpr'):
+                    dyn = dyn or x.get('kind') == 'CXXDynamicCastExpr'
+                    x = tu.kids(x)[-1] if tu.kids(x) else None
+                if x is not None:
+                    src = self.obj_of(x, fr)
+                nxt = []
+                for s0 in outs:
+                    d = thaw(s0)
+                    sv = d.get(src) if src is not None else None
+                    if sv == 'N':
+                        vals = ['N']
+                    elif sv == 'V' and not dyn:
+                        vals = ['V']
+                    elif init is not None and init.get('kind') == 'CXXNewExpr':
+                        vals = ['V']
+                    else:
+                        vals = ['N', 'V']      # unknown / failed dynamic_cast: both, so that tests are decisive
+                    for val in vals:
+                        nxt.append(freeze(dict(d, **{name: val})))
+                outs = nxt
+            return outs
+        if k == 'MemberExpr' and n.get('isArrow'):
+            ks = tu.kids(n)
+            o = self.obj_of(ks[0], fr) if ks else None
+            if o is not None and thaw(st).get(o) == 'N':
+                self.report('null-arg-deref', 'pointer `%s` is dereferenced (`->%s`) on a path where it is null'
+                            % (o.split('@')[0], n.get('name')), n, fr, st)
+            return [st]
+        if k == 'UnaryOperator' and n.get('opcode') == '*':
+            o = self.obj_of(tu.kids(n)[0], fr)
+            if o is not None and thaw(st).get(o) == 'N':
+                self.report('null-arg-deref', 'pointer `%s` is dereferenced (`*`) on a path where it is null' % o.split('@')[0], n, fr, st)
+            return [st]
+        return None
+
+
+def check_any_nullable_args(ctx, tu, it):
+    """R-C09-6: when a member of Any hands a possibly-null holder pointer to a holder virtual, no override of that
+    virtual may dereference the parameter on a path where it is null (two cooperating sites)."""
+    R6 = 'R-C09-6'
+    ctx.describe(R6, 'a holder virtual that receives a possibly-null holder pointer from a member of Any never dereferences it '
+                     'on a path where it is null (every override, callees inlined)')
+    n = 0
+    for (vq, idx), (call, infn, who) in sorted(it.nullable_calls.items(), key=lambda kv: kv[0]):
+        overrides = [f for f in tu.functions.values() if vq in f.get('overrides', []) and tu.cfg(f) is not None]
+        if not overrides:
+            ctx.undecided(R6, vq, 'possibly-null argument %d passed at %s but no override of %s has a body in the facts' % (idx, tu.loc(call), vq))
+            continue
+        for f in sorted(overrides, key=lambda x: x['q'] + str(x.get('rect'))):
+            if idx >= len(f['params']):
+                continue
+            n += 1
+            pi = PtrInterp(tu)
+            prm = f['params'][idx]
+            nm = prm['name'] or 'arg%d' % idx
+            res = pi.analyse_entry(f, {prm['id']: nm}, [freeze({nm: 'N'})])
+            inst = '%s (%s) with `%s` == null, as passed by %s at %s' % (f['q'].replace('rkcommon::utility::', ''), f.get('rect', '').replace('rkcommon::utility::', ''),
+                                                                        nm, infn['q'].replace('rkcommon::utility::', ''), tu.loc(call))
+            for u in pi.undecided:
+                ctx.undecided(R6, inst, u, tu.fn_loc(f))
+            bad = False
+            for st0, outs, found in res:
+                for kind, detail, nid, chain, fst, inner_id in found:
+                    bad = True
+                    inner = tu.functions.get(inner_id, f)
+                    ctx.violation(R6, inst, '%s: `%s` of an empty Any is passed by %s and reaches this dereference' % (
+                                  detail, who, infn['q'].replace('rkcommon::utility::', '')), tu.loc(nid),
+                                  key='%s|%s|%s|%s' % (R6, tu.fn_file(inner), pattern_name(tu, inner), kind),
+                                  path=['%s passes %s.%s.get() which is null when `%s` is empty (%s)' % (infn['q'], who, it.holder, who, tu.loc(call))]
+                                  + list(chain) + ['at %s: %s' % (tu.loc(nid), tu.show(tu.node(nid)))])
+            if not bad:
+                ctx.ok(R6, inst, 'null argument is tolerated on every path', tu.fn_loc(f))
+    ctx.floor(R6, n, 2, 'Any::operator== passes rhs\'s possibly-null holder to isSame of every instantiated holder (3 on the pinned tree)')
 
 
 def check_any_get(ctx, tu, R5):
